@@ -625,6 +625,62 @@ theorem redeemable_stays (w : World) (ops : List (Block × Op)) {d : Denom} {tv 
 
 
 
+/-! ## The initial allow list ("for every initial allow list and default gas limit")
+
+An accepted `instantiate` records every entry of its allow list — for an address named more than once the last
+entry — with exactly the submitted gas limit, whatever the default gas limit is; nothing else is listed.  The
+monitors `C18/initial-allow-missing` / `C18/initial-allow-gas` evaluate this on the implementation. -/
+
+/-- The allow list an `allowlist` argument denotes: later entries of the same address win. -/
+def allowView (l : List (AddrArg × Option Nat)) (old : Option (Option Nat)) (k : Addr) : Option (Option Nat) :=
+  l.foldl (fun acc p => if p.1.text = k then some p.2 else acc) old
+
+theorem addAllows_get (l : List (AddrArg × Option Nat)) {m m' : AMap Addr (Option Nat)}
+    (h : addAllows l m = .ok m') (k : Addr) : m'.get? k = allowView l (m.get? k) k := by
+  induction l generalizing m with
+  | nil => simp [addAllows] at h; subst h; rfl
+  | cons p rest ih =>
+    obtain ⟨a, g⟩ := p
+    simp only [addAllows, check_bind_ok] at h
+    obtain ⟨_, h⟩ := h
+    rw [ih h]
+    simp only [allowView, List.foldl_cons]
+    by_cases hk : a.text = k
+    · subst hk; simp [AMap.get?_set_eq]
+    · simp [hk, AMap.get?_set_ne _ _ _ _ hk]
+
+/-- **C18, initial allow list**: after an accepted `instantiate`, for every address `k` the stored entry is the one
+the submitted list denotes. -/
+theorem instantiate_allow {m : InstMsg} {s : State} (h : instantiate m = .ok s) (k : Addr) :
+    s.allow.get? k = allowView m.allowlist none k := by
+  simp [instantiate] at h
+  obtain ⟨_, al, ha, rfl⟩ := h
+  simpa using addAllows_get m.allowlist ha k
+
+/-- In particular an entry that nobody else overrides is stored with its own limit — also when that limit
+equals the default gas limit. -/
+theorem instantiate_allow_last {m : InstMsg} {s : State} (h : instantiate m = .ok s)
+    (pre : List (AddrArg × Option Nat)) (a : AddrArg) (g : Option Nat) (post : List (AddrArg × Option Nat))
+    (hl : m.allowlist = pre ++ (a, g) :: post) (hp : ∀ q ∈ post, q.1.text ≠ a.text) :
+    s.allow.get? a.text = some g := by
+  rw [instantiate_allow h, hl]
+  simp only [allowView, List.foldl_append, List.foldl_cons, if_true]
+  have : ∀ (r : List (AddrArg × Option Nat)) (acc : Option (Option Nat)), (∀ q ∈ r, q.1.text ≠ a.text) →
+      r.foldl (fun acc p => if p.1.text = a.text then some p.2 else acc) acc = acc := by
+    intro r
+    induction r with
+    | nil => intros; rfl
+    | cons q r ihr =>
+      intro acc hq
+      simp only [List.foldl_cons]
+      rw [if_neg (hq q (List.mem_cons_self ..))]
+      exact ihr acc (fun q' hq' => hq q' (List.mem_cons_of_mem _ hq'))
+  exact this post _ hp
+
+example : (match instantiate { defaultTimeout := 10, gov := ⟨true, "gov"⟩, allowlist := [(⟨true, "T1"⟩, some 500)],
+                               defaultGasLimit := some 500 } with
+           | .ok s => s.allow | .error _ => []) = [("T1", some 500)] := by decide
+
 /-! ## Independence from the environment assumptions: the unguarded semantics -/
 
 /-- A successful transaction of the unguarded semantics is either a transaction of the model or one of
